@@ -73,6 +73,7 @@ pub fn case_strat() -> impl Strategy<Value = Case> {
                 Probe::Farm(FOp::WithdrawPos { user, pos, emergency, by_other, .. }) => Probe::Farm(FOp::WithdrawPos { user, pos, emergency, by_other, at_unlock: None }),
                 // (the long-lived-position composite is many messages: probe its first one)
                 Probe::Farm(FOp::Churn { user, lp, amount, .. }) | Probe::Farm(FOp::ExitOneOfTwo { user, lp, amount, .. }) => Probe::Farm(FOp::Open { user, lp, amount, dur: crate::world::DAY, id: None, for_other: None }),
+                Probe::Farm(FOp::Crowd { user, lp, .. }) | Probe::Farm(FOp::FillPositions { user, lp }) => Probe::Farm(FOp::Open { user, lp, amount: 1000, dur: crate::world::DAY, id: None, for_other: None }),
                 p => p,
             };
             Case { cfg, prefix, probe }
